@@ -41,6 +41,15 @@ def rng(seed, name):
     return random.Random(H(seed, name))
 
 
+def gen_case(mod, seed, idx, tier):
+    """Run index -> case.  A check that enumerates part of its space by run index defines
+    generate_indexed(idx, run_seed, tier); the others generate(run_seed, tier)."""
+    s = H(seed, mod.PROPERTY, idx)
+    if hasattr(mod, 'generate_indexed'):
+        return mod.generate_indexed(idx, s, tier)
+    return mod.generate(s, tier)
+
+
 # ---------------------------------------------------------------------------
 # watchdog (bounded liveness): SIGALRM raises inside the worker
 
@@ -115,7 +124,7 @@ def _worker_main(mod, tier, seed, conn):
             return
         for idx in msg:
             conn.send(('start', idx))
-            case = mod.generate(H(seed, mod.PROPERTY, idx), tier)
+            case = gen_case(mod, seed, idx, tier)
             out = safe_execute(mod, case)
             conn.send(('done', idx, out))
         conn.send(('idle',))
@@ -346,6 +355,58 @@ def run_isolated(mod, case, limit=90):
     return out
 
 
+def forked(fn, timeout=60):
+    """Process-state seam: run fn() in a child forked from this (pristine) process and return
+    ('ok', result) | ('error', traceback) | ('crash', exitcode) | ('hang', None).  The result
+    travels back as pickle over a pipe; the child never returns into the caller's stack."""
+    import pickle
+    rfd, wfd = os.pipe()
+    sys.stdout.flush()
+    sys.stderr.flush()
+    pid = os.fork()
+    if pid == 0:
+        code = 0
+        try:
+            os.close(rfd)
+            signal.setitimer(signal.ITIMER_REAL, 0)
+            signal.signal(signal.SIGALRM, signal.SIG_DFL)
+            signal.alarm(int(timeout) + 5)      # hard stop for a hang in C code
+            try:
+                msg = ('ok', fn())
+            except BaseException:
+                msg = ('error', traceback.format_exc())
+            data = pickle.dumps(msg)
+            with os.fdopen(wfd, 'wb') as f:
+                f.write(data)
+        except BaseException:
+            code = 3
+        finally:
+            os._exit(code)
+    os.close(wfd)
+    chunks = []
+    try:
+        with os.fdopen(rfd, 'rb') as f:
+            while True:
+                b = f.read(1 << 16)
+                if not b:
+                    break
+                chunks.append(b)
+    except BaseException:
+        try:
+            os.kill(pid, signal.SIGKILL)
+        except OSError:
+            pass
+        os.waitpid(pid, 0)
+        raise
+    _, status = os.waitpid(pid, 0)
+    if os.WIFSIGNALED(status):
+        sig = os.WTERMSIG(status)
+        return ('hang', None) if sig == signal.SIGALRM else ('crash', -sig)
+    if not chunks:
+        return ('crash', os.WEXITSTATUS(status))
+    return pickle.loads(b''.join(chunks))
+
+
 # ---------------------------------------------------------------------------
 # the driver
 
@@ -404,7 +465,7 @@ def print_digests(mod, tier, seed, indices):
         mod.worker_init()
     res = {}
     for idx in indices:
-        case = mod.generate(H(seed, mod.PROPERTY, idx), tier)
+        case = gen_case(mod, seed, idx, tier)
         out = safe_execute(mod, case)
         res[idx] = [out.get('log'), observe.digest(case)]
     print('DIGESTS ' + json.dumps(res))
@@ -472,7 +533,7 @@ def run_check(mod, tier, seed, runs=None, jobs=None, wall=None, selfcheck=True, 
 
     if not agg['samples']:
         # make sure at least one explicit sample is present
-        case = mod.generate(H(seed, prop, 0), tier)
+        case = gen_case(mod, seed, 0, tier)
         agg['samples'].append(mod.describe(case) if hasattr(mod, 'describe') else case)
 
     exit_code = 0
@@ -483,7 +544,7 @@ def run_check(mod, tier, seed, runs=None, jobs=None, wall=None, selfcheck=True, 
         by_class.setdefault(v['class'], []).append((idx, v))
     for vclass, items in list(by_class.items())[:4]:
         idx, v = items[0]
-        case = mod.generate(H(seed, prop, idx), tier)
+        case = gen_case(mod, seed, idx, tier)
         if vclass in ('hang', 'hang-hard'):
             out = run_isolated(mod, case, limit=60)
             real, _ = violation_classes(out, prop, known)
